@@ -263,6 +263,123 @@ func loopPolicies() []loopPolicy {
 	}
 }
 
+// evalLoopSeqs runs the sequences through the implementation and the model; false = stop (enough mismatches)
+func evalLoopSeqs(d *driver, pid string, gp *bluemonday.Policy, lp loopPolicy, seqs []string, sum *summary, distinct map[string]bool, kind string) bool {
+	const batch = 256
+	for i := 0; i < len(seqs); i += batch {
+		j := i + batch
+		if j > len(seqs) {
+			j = len(seqs)
+		}
+		var qs []string
+		for _, s := range seqs[i:j] {
+			qs = append(qs, "SAN "+pid+" "+hexOf(s))
+		}
+		ans := d.askMany(qs)
+		for k, s := range seqs[i:j] {
+			a := ans[k]
+			if strings.HasPrefix(a, "MISS ") {
+				a = d.askOracle(qs[k])
+			}
+			cs, pn, _ := goChunks(gp, s)
+			goS := chunksStr(cs, pn)
+			sum.Evaluations++
+			distinct[goS] = true
+			if goS != normModelChunks(a) {
+				sum.Mismatches = append(sum.Mismatches, map[string]any{"kind": kind, "input_hex": hexOf(s), "input_text": s, "policy": lp.ps, "go": goS, "model": a})
+				if len(sum.Mismatches) >= 8 {
+					return false
+				}
+			}
+		}
+	}
+	return true
+}
+
+// all ordered forests with exactly k element nodes over the given labels, rendered with the text
+// marker t after every tag; a label ending in "!" is a void element (leaf, no end tag)
+func forestsOfSize(maxNodes int, labels []string) [][]string {
+	F := make([][]string, maxNodes+1)
+	T := make([][]string, maxNodes+1)
+	F[0] = []string{""}
+	for k := 1; k <= maxNodes; k++ {
+		// trees with exactly k nodes
+		for _, l := range labels {
+			if strings.HasSuffix(l, "!") {
+				if k == 1 {
+					T[k] = append(T[k], "<"+strings.TrimSuffix(l, "!")+">t")
+				}
+				continue
+			}
+			name := l
+			if i := strings.IndexByte(l, ' '); i >= 0 {
+				name = l[:i]
+			}
+			for _, inner := range F[k-1] {
+				T[k] = append(T[k], "<"+l+">t"+inner+"</"+name+">t")
+			}
+		}
+		for j := 1; j <= k; j++ {
+			for _, t := range T[j] {
+				for _, rest := range F[k-j] {
+					F[k] = append(F[k], t+rest)
+				}
+			}
+		}
+	}
+	return F
+}
+
+// forestMode: bounded-exhaustive WELL-FORMED documents (the shape C08 / C09 quantify over): every
+// forest of at most n element nodes over the element kinds that drive the loop state (dropped for
+// lack of attributes, kept, skip-content, disallowed, pattern-matched, void), text after every tag
+func forestMode(args []string) {
+	fs := flag.NewFlagSet("forest", flag.ExitOnError)
+	drv := fs.String("driver", "", "driver binary")
+	maxNodes := fs.Int("nodes", 4, "bound on element nodes, all kinds")
+	coreNodes := fs.Int("corenodes", 5, "bound on element nodes over the core kinds")
+	fs.Parse(args)
+	all := []string{"a", "a href=\"/x\"", "b", "object", "u", "custom-x", "br!"}
+	core := []string{"a", "a href=\"/x\"", "object", "b"}
+	sum := newSummary("corr-forest")
+	d := startDriver(*drv)
+	defer d.close()
+	distinct := map[string]bool{}
+	pols := loopPolicies()
+	use := []int{0, 1, 3}
+	Fa := forestsOfSize(*maxNodes, all)
+	Fc := forestsOfSize(*coreNodes, core)
+	for _, pi := range use {
+		lp := pols[pi]
+		pid := fmt.Sprintf("fp%d", pi)
+		lp.ps.define(d, pid)
+		gp := lp.ps.buildGo()
+		n := 0
+		for k := 0; k <= *maxNodes; k++ {
+			n += len(Fa[k])
+			if !evalLoopSeqs(d, pid, gp, lp, Fa[k], sum, distinct, "correspondence-forest") {
+				goto done
+			}
+		}
+		for k := *maxNodes + 1; k <= *coreNodes; k++ {
+			n += len(Fc[k])
+			if !evalLoopSeqs(d, pid, gp, lp, Fc[k], sum, distinct, "correspondence-forest") {
+				goto done
+			}
+		}
+		sum.Distribution["policy-"+lp.ps.Name] = n
+		if len(sum.Samples) < 3 {
+			s := Fa[*maxNodes][len(Fa[*maxNodes])/3]
+			cs, pn, _ := goChunks(gp, s)
+			sum.Samples = append(sum.Samples, map[string]any{"policy": lp.ps.Name, "input": s, "observed": chunksStr(cs, pn)})
+		}
+	}
+done:
+	sum.Nontrivial = len(distinct)
+	sum.Extra["exhaustive"] = fmt.Sprintf("all well-formed forests of at most %d element nodes over %d element kinds and of at most %d over %d core kinds, a text token after every tag, per policy (%d policies)", *maxNodes, len(all), *coreNodes, len(core), len(use))
+	sum.emit()
+}
+
 func loopMode(args []string) {
 	fs := flag.NewFlagSet("loop", flag.ExitOnError)
 	drv := fs.String("driver", "", "driver binary")
@@ -306,33 +423,8 @@ func loopMode(args []string) {
 			}
 			rec2("", *coreLen, 0)
 		}
-		const batch = 256
-		for i := 0; i < len(seqs); i += batch {
-			j := i + batch
-			if j > len(seqs) {
-				j = len(seqs)
-			}
-			var qs []string
-			for _, s := range seqs[i:j] {
-				qs = append(qs, "SAN "+pid+" "+hexOf(s))
-			}
-			ans := d.askMany(qs)
-			for k, s := range seqs[i:j] {
-				a := ans[k]
-				if strings.HasPrefix(a, "MISS ") {
-					a = d.askOracle(qs[k])
-				}
-				cs, pn, _ := goChunks(gp, s)
-				goS := chunksStr(cs, pn)
-				sum.Evaluations++
-				distinct[goS] = true
-				if goS != normModelChunks(a) {
-					sum.Mismatches = append(sum.Mismatches, map[string]any{"kind": "correspondence-loop", "input_hex": hexOf(s), "input_text": s, "policy": lp.ps, "go": goS, "model": a})
-					if len(sum.Mismatches) >= 8 {
-						goto done
-					}
-				}
-			}
+		if !evalLoopSeqs(d, pid, gp, lp, seqs, sum, distinct, "correspondence-loop") {
+			goto done
 		}
 		sum.Distribution["policy-"+lp.ps.Name] = len(seqs)
 		if len(sum.Samples) < 3 {
